@@ -510,7 +510,11 @@ def starStep (d : DCtx) (config : Option Str) (s : Sid)
     | .ok x =>
       if x.type != s.type then .ok (out, found)
       else if !x.typed then .ok (out, found)
-      else .ok (out ++ [x], found ++ [path])
+      else
+        match Find.globMatch d.ctx.env s.string x.string with
+        | .error e => .error e
+        | .ok false => .ok (out, found)
+        | .ok true => .ok (out ++ [x], found ++ [path])
 
 theorem pathsStarGo_cons (d : DCtx) (w : World) (config : Option Str) (s : Sid) (rest : List Sid)
     (searched : List (Str × Str)) (found : List Str) :
@@ -607,7 +611,8 @@ theorem starStep_other (d : DCtx) (config : Option Str) (s : Sid) (p : Str) (x :
 
 /-- the Sids a star search may yield for the search Sid `s` -/
 def StarRes (d : DCtx) (w : World) (config : Option Str) (s : Sid) (x : Sid) : Prop :=
-  x.typed = true ∧ s.type = x.type ∧ ∃ p, w.pathExists p = true ∧ d.ctx.sidOfPath p config = .ok x
+  x.typed = true ∧ s.type = x.type ∧ Find.globMatch d.ctx.env s.string x.string = .ok true ∧
+    ∃ p, w.pathExists p = true ∧ d.ctx.sidOfPath p config = .ok x
 
 theorem starFold_res (d : DCtx) (w : World) (config : Option Str) (s : Sid) (l : List Str)
     (hl : ∀ p ∈ l, w.pathExists p = true) (out0 : List Sid) (f0 : List Str) (out : List Sid) (f : List Str)
@@ -642,14 +647,18 @@ theorem starFold_res (d : DCtx) (w : World) (config : Option Str) (s : Sid) (l :
           split at h
           · exact ih hl' out0 f0 h0 h
           · next htyped =>
-            refine ih hl' _ _ ?_ h
-            intro y hy
-            simp only [List.mem_append, List.mem_singleton] at hy
-            rcases hy with hy | rfl
-            · exact h0 y hy
-            · refine ⟨by simpa using htyped, ?_, p, hl p (by simp), hx⟩
-              have : y.type = s.type := by simpa using hty
-              exact this.symm
+            split at h
+            · exact absurd h (herr _)
+            · exact ih hl' out0 f0 h0 h
+            · next hgm =>
+              refine ih hl' _ _ ?_ h
+              intro y hy
+              simp only [List.mem_append, List.mem_singleton] at hy
+              rcases hy with hy | rfl
+              · exact h0 y hy
+              · refine ⟨by simpa using htyped, ?_, hgm, p, hl p (by simp), hx⟩
+                have : y.type = s.type := by simpa using hty
+                exact this.symm
 
 theorem pathsStarGo_res (d : DCtx) (w : World) (config : Option Str) (searches : List Sid)
     (searched : List (Str × Str)) (found : List Str) (r : List Sid)
